@@ -21,7 +21,7 @@ RULE = (
     "non-trivial = >= 2 non-empty partitions and the template is not partition-local; distinct by (template, cuts)"
 )
 ASSUMPTIONS = ["approximate operators (quantile, describe, nunique_approx) are not compared with pandas", "pandas runs on the pyarrow-string version of the input", "float tolerance rtol=1e-9 atol=1e-12"]
-BUDGET_S = {"quick": 200, "thorough": 3400}
+BUDGET_S = {"quick": 200, "thorough": 1000}
 
 REFUSALS = (
     "Partition size is less than overlapping window size",
